@@ -45,19 +45,21 @@ def _operand_type_check(
     return wrapped_op
 
 
-def _wrap_paren(add_expr: NumberAddExpr) -> NumberParenExpr:
+def _wrap_paren(token_store: base.TokenStore, add_expr: NumberAddExpr) -> NumberParenExpr:
+    # token_store is the store of the NumberExpr the call came through: if its tree was moved into another expression,
+    # the first insert raises before anything is written (into somebody else's document).
     left_paren = LeftParen.from_default()
     right_paren = RightParen.from_default()
-    add_expr.token_store.insert_before(add_expr.first_token, [left_paren])
-    add_expr.token_store.insert_after(add_expr.last_token, [right_paren])
+    token_store.insert_before(add_expr.first_token, [left_paren])
+    token_store.insert_after(add_expr.last_token, [right_paren])
     return NumberParenExpr(
-        add_expr.token_store, left_paren, add_expr, right_paren)
+        token_store, left_paren, add_expr, right_paren)
 
 
 def _as_mul_expr(expr: 'NumberExpr') -> NumberMulExpr:
     if not expr.raw_number_add_expr.raw_ops:
         return expr.raw_number_add_expr.raw_operands[0]
-    paren_expr = _wrap_paren(expr.raw_number_add_expr)
+    paren_expr = _wrap_paren(expr.token_store, expr.raw_number_add_expr)
     mul_expr = NumberMulExpr(expr.token_store, (paren_expr,), ())
     return mul_expr
 
@@ -67,7 +69,7 @@ def _as_atom_expr(expr: 'NumberExpr') -> NumberAtomExpr:
         mul_expr = expr.raw_number_add_expr.raw_operands[0]
         if not mul_expr.raw_ops:
             return mul_expr.raw_operands[0]
-    return _wrap_paren(expr.raw_number_add_expr)
+    return _wrap_paren(expr.token_store, expr.raw_number_add_expr)
 
 
 def _unary(a: 'NumberExpr', op: Literal['+', '-']) -> NumberAddExpr:
@@ -96,7 +98,7 @@ class NumberExpr(number_expr.NumberExpr, internal.RWValue[decimal.Decimal]):
         self.raw_number_add_expr = _add_expr_from_value(value)
 
     def wrap_with_parenthesis(self) -> None:
-        paren_expr = _wrap_paren(self.raw_number_add_expr)
+        paren_expr = _wrap_paren(self.token_store, self.raw_number_add_expr)
         mul_expr = NumberMulExpr(self.token_store, (paren_expr,), ())
         add_expr = NumberAddExpr(self.token_store, (mul_expr,), ())
         self._number_add_expr = add_expr
